@@ -322,6 +322,14 @@ macro_rules! c07_ans_row {
                         Err(_) => { ctx.discard("foreign:C01/reimport_rejected"); return Ok(()); }
                     }
                 }
+                _ if bulk_len % 2 == 1 => {
+                    // the same consuming stack behind a SmallVec (inline capacity larger than the data, or spilled)
+                    ctx.label("dec:smallvec_backend_truncating");
+                    let (bulk, state) = coder.clone().into_raw_parts();
+                    let sv: smallvec::SmallVec<[$W; 8]> = smallvec::SmallVec::from_slice(&bulk);
+                    let mut d = AnsCoder::<$W, $S, _>::from_raw_parts(sv, state);
+                    ans_script!(d, script, |p: usize| p, snaps, msg, $plist, "SmallVec backend", ctx, true, |e: usize| bulk_len + e);
+                }
                 _ => {
                     ctx.label("dec:vec_backend_truncating");
                     let mut d = coder.clone();
